@@ -334,8 +334,20 @@ def gen_history(scn, key):
     steps = []
     cur = base
     for i in range(rng.randint(2, 4)):
-        kind = "first" if i == 0 else rng.choice(["same", "layout", "layout", "flip", "flip-inplace"])
+        kind = "first" if i == 0 else rng.choice(["same", "layout", "layout", "flip", "flip-inplace"] + (["retime-inplace"] * 3 if op == "spi" and cur["params"].get("cal") else []))
         v = dict(cur)
+        if kind == "retime-inplace":
+            # the time axis of the same object is re-labelled (shifted by k dekads); the calibration
+            # DATES stay the same, so they now sit at other positions (s51)
+            T = cur["cube"]["shape"][0]
+            a, b = cur["params"]["cal"]
+            ks = [k for k in (-3, -2, -1, 1, 2, 3) if 0 <= a - k and b - k <= T - 1 and cur["tstart"] + k >= 0]
+            if ks:
+                k = rng.choice(ks)
+                v["tstart"] = cur["tstart"] + k
+                v["params"] = dict(cur["params"], cal=[a - k, b - k])
+            else:
+                kind = "same"
         if kind == "layout":
             v["layout"] = list(rng.choice(layouts))
         elif kind in ("flip", "flip-inplace"):
@@ -375,7 +387,12 @@ def check_history(scn, key, ref_cache):
     cube = None
     for i, (st, (exp, exp_exc)) in enumerate(zip(steps, expected)):
         v = st["scn"]
-        if st["kind"] == "flip-inplace" and cube is not None and cube.data.flags.writeable and list(cube.dims) == list(v["layout"]):
+        if st["kind"] == "retime-inplace" and cube is not None and list(cube.dims) == list(v["layout"]):
+            fresh = S.build_cube(v)
+            cube["time"] = fresh["time"].values  # same DataArray object (and accessor), new labels
+            if "doy" in cube.coords:
+                cube["doy"] = ("time", fresh["doy"].values)
+        elif st["kind"] == "flip-inplace" and cube is not None and cube.data.flags.writeable and list(cube.dims) == list(v["layout"]):
             cube.data[...] = S.build_cube(v).data  # same DataArray object, same buffer, new content
         else:
             cube = S.build_cube(v)
